@@ -5,6 +5,7 @@ import (
 	"fmt"
 	"os"
 	"path/filepath"
+	"perkeep.org/pkg/blobserver/files"
 	"sort"
 	"strings"
 
@@ -46,9 +47,21 @@ type c03Config struct {
 	OnlyVariant int `json:"onlyVariant"`
 }
 
+func init() {
+	// the host-filesystem VFS (osfs.go, under localdisk) is held to the
+	// contract the crash model assumes of a VFS: see sim.RecVFS
+	files.VerifWrapOSFS = func(v files.VFS) files.VFS { return &sim.RecVFS{Inner: v} }
+}
+
 func genC03(tier string, run int, r *simcore.Rand) *harness.Plan {
 	var root *sim.Node
-	if run%2 == 0 {
+	if run%8 == 7 {
+		// the files store on the real host filesystem: no crash images
+		// here (they are built over SimVFS), but every Sync, Close, Rename
+		// and MkdirAll of osfs.go is checked against what those images
+		// assume (sim.RecVFS)
+		root = &sim.Node{Type: "localdisk", Name: "l1"}
+	} else if run%2 == 0 {
 		root = &sim.Node{Type: "files", Name: "f1"}
 	} else {
 		root = &sim.Node{Type: "diskpacked", Name: "d1", MaxFileSize: []int{1, 40, 150, 600, 5000, 1 << 20}[r.Intn(6)]}
@@ -221,9 +234,45 @@ func execC03(rc *harness.RunCtx, p *harness.Plan, cfg *Config, ops []sim.Op) *ha
 				ncalls = len(env.Trace) - t0
 			}
 		}
+		if cfg.Root.Type == "localdisk" {
+			// a clean restart over the same directory: what was
+			// acknowledged is served by the re-opened store
+			var rerr error
+			if herr := s.task(func() { s.world.Restart(true); rerr = s.build() }); herr != nil || rerr != nil {
+				out.Violation = harness.Viol("reopen-failed", "reopen-failed@localdisk", fmt.Sprint("re-opening the store over its own directory failed: ", herr, rerr), len(ops))
+				return out
+			}
+			all := make([]int, len(s.pool))
+			for i := range all {
+				all[i] = i
+			}
+			sweep := []sim.Op{{Kind: "stat", B: all}, {Kind: "enum", Limit: 100000}}
+			for i := range s.pool {
+				sweep = append(sweep, sim.Op{Kind: "fetch", B: []int{i}})
+			}
+			for _, op := range sweep {
+				res, herr := s.do(ctx, op)
+				if herr != nil {
+					out.Violation = harness.Viol("after-reopen:hang", "after-reopen:hang@localdisk", op.String()+" never returned", len(ops))
+					return out
+				}
+				if v := s.model.Check(op, res, false); len(v) > 0 {
+					cl := "after-reopen:" + classOf(v[0])
+					out.Violation = harness.Viol(cl, cl+"@localdisk", "after a clean restart over the same directory: "+v[0], len(ops))
+					return out
+				}
+			}
+		}
 		s.task(func() { s.world.Restart(true) })
 	}
 	out.SubRuns++
+	if cfg.Root.Type == "localdisk" {
+		out.Reached["host-vfs-contract-history"]++
+		out.ShapeKey = fmt.Sprintf("localdisk|%d ops", len(ops))
+		out.Nontrivial = len(ops) > 0
+		out.Sample = map[string]any{"store": "localdisk (files store over osfs.go under the contract-checking VFS)", "history": opStrings(ops, 12)}
+		return out
+	}
 
 	// 2. crash points
 	for c := 0; c <= ncalls; c++ {
